@@ -60,6 +60,35 @@ def r8(ctx, cfg):
     C07.r5(ctx, cfg, R="C08.R8")
 
 
+def _run_inside_with_storage(cfg):
+    """the closures that run inside the action handed to with_storage: the action itself and, transitively, every closure it
+    invokes (`with_storage(.., |c, deps, env| entry(c, deps, env).and_then(verify))` runs `entry` there)"""
+    F, P = cfg.facts, cfg.prov
+    if getattr(F, "_c08_inside", None) is not None:
+        return F._c08_inside
+    inside, todo = set(), []
+    for g, b, t in q.all_calls(F, "wasm::WasmKeeper::with_storage"):
+        a = peel(P.call_args(g, t, b)[-1])
+        if a[0] == "closure":
+            todo.append(a[1])
+    while todo:
+        k = todo.pop()
+        if k in inside:
+            continue
+        inside.add(k)
+        h = F.fn(k)
+        if h is None:
+            continue
+        for b, t in h.calls():
+            c = t["callee"]
+            if c.get("trait", "").startswith("std::ops::Fn") and t["args"]:
+                o = peel(P.call_args(h, t, b)[0])
+                if o[0] == "closure":
+                    todo.append(o[1])
+    F._c08_inside = inside
+    return inside
+
+
 def r7(ctx, cfg):
     """premise shared with C06: a contract's window [prefix, upper_bound(prefix)) is read through the stack of
     transaction overlays; its upper bound is the raw prefix of the neighbouring namespace, so the overlay must treat
@@ -371,7 +400,7 @@ def r4(ctx, cfg):
             ok = root == "wasm::WasmKeeper::query_smart" and so[0] == "call" and so[1] == "wasm::Wasm::contract_storage" and is_param(so[2][2], "address")
         elif ok:
             use = P.closure_use(f) if f.kind == "closure" else None
-            ok = use is not None and use[2]["callee"]["key"] == "wasm::WasmKeeper::with_storage"
+            ok = (use is not None and use[2]["callee"]["key"] == "wasm::WasmKeeper::with_storage") or f.key in _run_inside_with_storage(cfg)
         ctx.ob(R, root, "Contract::%s-only-inside-with_storage" % t["callee"]["name"], ok,
                "Contract::%s is invoked from %s outside the with_storage wrappers" % (t["callee"]["name"], f.key), fn=f, line=t["line"],
                sample="inside closure passed to with_storage[_readonly]")
